@@ -10,6 +10,7 @@
  *   exdate: occurrences = the six instants minus the excepted ones (C02)
  *   rdate : occurrences = the listed instants (an event without RRULE has no DTSTART-anchored rule
  *           instances; the project's own tests pin that reading), non-decreasing (C03 order, C02 union)
+ *   duprdate, paramorder: see enumerate_dup() and enumerate_paramorder() (line parameters in every order)
  */
 #include "vdrv.h"
 #include "ref/icalio.h"
@@ -163,11 +164,175 @@ enumerate_dup(void)
 	}
 }
 
+/* mode=paramorder: the parameters of an EXDATE/RDATE line in every order.  RFC 5545 puts no order on parameters, and
+ * VALUE=DATE-TIME (the default value type, spelt out) changes nothing.  The event keeps its RRULE.  Every subset of
+ * up to maxlist instants (EXDATE: the universe of mode=exdate; RDATE: 10:00Z and 02:00Z next day, which are no rule
+ * instance, and 12:00Z, which is one) with EVERY assignment of a written form to each value, the forms being
+ *   UTC:  PROP:...Z | PROP;VALUE=DATE-TIME:...Z
+ *   each of the three zones:  PROP;TZID=z:local | PROP;VALUE=DATE-TIME;TZID=z:local | PROP;TZID=z;VALUE=DATE-TIME:local
+ * one line per value; and, for two or more values in one form, as one comma list.
+ * Delivered must be the rule instances minus the excepted ones (EXDATE) / united with the listed ones (RDATE), as
+ * sets, in non-decreasing order; i.e. every spelling names the instants the TZID-only spelling names. */
+struct pform_s {
+	int zone;	/* index into forms[] */
+	int spell;	/* 0 plain, 1 VALUE first, 2 VALUE last */
+	const char *name;
+};
+static const struct pform_s pforms[] = {
+	{0, 0, "utc"}, {0, 1, "V:utc"},
+	{1, 0, "tokyo"}, {1, 1, "V;tokyo"}, {1, 2, "tokyo;V"},
+	{2, 0, "phoenix"}, {2, 1, "V;phoenix"}, {2, 2, "phoenix;V"},
+	{3, 0, "kolkata"}, {3, 1, "V;kolkata"}, {3, 2, "kolkata;V"},
+};
+#define NPFORMS	11
+
+static size_t
+put_head(char *buf, size_t bsz, const char *prop, const struct pform_s *pf)
+{
+	const struct form_s *f = &forms[pf->zone];
+	static const char v[] = "VALUE=DATE-TIME";
+	if (f->tzid == NULL) {
+		return (size_t)snprintf(buf, bsz, "%s%s%s:", prop, pf->spell ? ";" : "", pf->spell ? v : "");
+	} else if (pf->spell == 1) {
+		return (size_t)snprintf(buf, bsz, "%s;%s;TZID=%s:", prop, v, f->tzid);
+	} else if (pf->spell == 2) {
+		return (size_t)snprintf(buf, bsz, "%s;TZID=%s;%s:", prop, f->tzid, v);
+	}
+	return (size_t)snprintf(buf, bsz, "%s;TZID=%s:", prop, f->tzid);
+}
+
+static size_t
+put_raw(char *buf, size_t bsz, int64_t t, const struct pform_s *pf)
+{
+	const struct form_s *f = &forms[pf->zone];
+	rf_dt d = rf_from_secs(t + f->offs, 0);
+	return (size_t)snprintf(buf, bsz, "%04d%02d%02dT%02d%02d%02d%s", d.y, d.m, d.d, d.H, d.M, d.S, f->tzid ? "" : "Z");
+}
+
+static void
+enumerate_paramorder(void)
+{
+	const int maxlist = (int)vd_opt_l("maxlist", 2);
+	int64_t inst[6], uni[2][8];
+	const int nuni[2] = {8, 3};
+	rf_dt b = {2020, 2, 29, 8, 0, 0, 0};
+
+	base = rf_secs(b);
+	for (int i = 0; i < 6; i++) inst[i] = uni[0][i] = base + (int64_t)i * 4 * 3600;
+	uni[0][6] = base + 2 * 3600, uni[0][7] = base + 18 * 3600;
+	uni[1][0] = base + 2 * 3600, uni[1][1] = base + 18 * 3600, uni[1][2] = base + 4 * 3600;
+	vd_count_cases = 0;
+	for (int rdate = 0; rdate < 2; rdate++) {
+		const char *prop = rdate ? "RDATE" : "EXDATE";
+		for (unsigned m = 1; m < (1U << nuni[rdate]); m++) {
+			int idx[8], k = 0;
+			unsigned nass = 1;
+			for (int i = 0; i < nuni[rdate]; i++) if (m >> i & 1U) idx[k++] = i;
+			if (k > maxlist) continue;
+			for (int i = 0; i < k; i++) nass *= NPFORMS;
+			if (!vd_next()) continue;
+			vd_shape("paramorder/%s/n=%d", rdate ? "rdate" : "exdate", k);
+			/* a < nass: one line per value; a >= nass (k >= 2): one comma list in form a - nass */
+			for (unsigned a = 0; a < nass + (k > 1 ? NPFORMS : 0U); a++) {
+				char body[1024], text[1536], fs[96] = "";
+				size_t o = 0;
+				unsigned aa = a;
+				int has[3] = {0, 0, 0}, utcv = 0, zoned = 0;
+				int64_t want[12], got[20];
+				int nw = 0, ng = 0;
+				char sig[128];
+
+				o += (size_t)snprintf(body + o, sizeof(body) - o, "DTSTART:20200229T080000Z\nRRULE:FREQ=HOURLY;INTERVAL=4;COUNT=6\n");
+				if (a >= nass) {
+					const struct pform_s *pf = &pforms[a - nass];
+					o += put_head(body + o, sizeof(body) - o, prop, pf);
+					for (int i = 0; i < k; i++) {
+						if (i) o += (size_t)snprintf(body + o, sizeof(body) - o, ",");
+						o += put_raw(body + o, sizeof(body) - o, uni[rdate][idx[i]], pf);
+					}
+					o += (size_t)snprintf(body + o, sizeof(body) - o, "\n");
+					snprintf(fs, sizeof(fs), "list:%s", pf->name);
+					if (pf->zone) has[pf->spell] = 1, zoned = 1; else utcv |= pf->spell;
+				} else {
+					for (int i = 0; i < k; i++, aa /= NPFORMS) {
+						const struct pform_s *pf = &pforms[aa % NPFORMS];
+						o += put_head(body + o, sizeof(body) - o, prop, pf);
+						o += put_raw(body + o, sizeof(body) - o, uni[rdate][idx[i]], pf);
+						o += (size_t)snprintf(body + o, sizeof(body) - o, "\n");
+						snprintf(fs + strlen(fs), sizeof(fs) - strlen(fs), "%s%s", i ? "," : "", pf->name);
+						if (pf->zone) has[pf->spell] = 1, zoned = 1; else utcv |= pf->spell;
+					}
+				}
+				ical_wrap(text, sizeof(text), "paramorder@verif", body);
+				vd_sh->evals++;
+				vd_desc("%s subset %#x forms [%s]: %s", prop, m, fs, body);
+				for (char *q = vd_sh->desc; *q; q++) if (*q == '\n') *q = ' ';
+				for (int i = 0; i < 6; i++) {
+					int ex = 0;
+					for (int j = 0; j < k && !rdate; j++) ex |= uni[0][idx[j]] == inst[i];
+					if (!ex) want[nw++] = inst[i];
+				}
+				for (int j = 0; j < k && rdate; j++) {
+					int have = 0;
+					for (int i = 0; i < nw; i++) have |= want[i] == uni[1][idx[j]];
+					if (!have) want[nw++] = uni[1][idx[j]];
+				}
+				/* the spelling class: what the most demanding line looks like */
+				const char *sk = has[1] ? "value-then-tzid" : has[2] ? "tzid-then-value" : utcv ? "value-utc" : zoned ? "tzid-only" : "utc";
+				echs_task_t t = ical_task1(text);
+				if (t == NULL || t->strm == NULL) {
+					snprintf(sig, sizeof(sig), "rejected/paramorder/%s/%s", rdate ? "rdate" : "exdate", sk);
+					vd_viol(sig, "no task/stream for a well-formed event");
+					if (t) free_echs_task(t);
+					continue;
+				}
+				for (; ng < 20; ng++) {
+					echs_event_t e = echs_evstrm_pop(t->strm);
+					if (echs_nul_event_p(e)) break;
+					got[ng] = inst_secs(e.from);
+				}
+				free_echs_task(t);
+				if (has[1] || has[2]) vd_nontrivial();
+				if (vd_want_sample() && (has[1] || has[2])) vd_sample("%s forms [%s] over subset %#x -> %d occurrences", prop, fs, m, ng);
+				for (int i = 1; i < ng; i++) {
+					if (got[i] < got[i - 1]) {
+						snprintf(sig, sizeof(sig), "order/paramorder/%s/%s", rdate ? "rdate" : "exdate", sk);
+						vd_viol(sig, "occurrence %d lies before occurrence %d", i, i - 1);
+						break;
+					}
+				}
+				for (int i = 0; i < nw; i++) {
+					int f = 0;
+					for (int j = 0; j < ng; j++) f |= got[j] == want[i];
+					if (!f) {
+						snprintf(sig, sizeof(sig), "%s/paramorder/%s", rdate ? "rdate-missing" : "wrongly-dropped", sk);
+						vd_viol(sig, "expected occurrence at +%lldh is not delivered (%d delivered, %d expected)", (long long)((want[i] - base) / 3600), ng, nw);
+						break;
+					}
+				}
+				for (int j = 0; j < ng; j++) {
+					int f = 0;
+					for (int i = 0; i < nw; i++) f |= got[j] == want[i];
+					if (!f) {
+						snprintf(sig, sizeof(sig), "%s/paramorder/%s", rdate ? "spurious" : "not-excluded", sk);
+						vd_viol(sig, "occurrence at +%lldh is delivered but %s", (long long)((got[j] - base) / 3600), rdate ? "was never listed" : "is named by an EXDATE");
+						break;
+					}
+				}
+			}
+		}
+	}
+}
+
 static void
 enumerate(void)
 {
 	if (!strcmp(vd_opt("mode", "exdate"), "duprdate")) {
 		enumerate_dup();
+		return;
+	}
+	if (!strcmp(vd_opt("mode", "exdate"), "paramorder")) {
+		enumerate_paramorder();
 		return;
 	}
 	const int rdate = !strcmp(vd_opt("mode", "exdate"), "rdate");
